@@ -9,6 +9,7 @@ and body; the only sanctioned difference is the Connection header of the ASGI ev
 """
 import os
 import shutil
+import asyncio
 import sys
 
 from .. import tlc, graph, common, servers, recipes
@@ -84,6 +85,8 @@ def view_fn(iface, form_first=False):
                 return ["ok", await coro_fn()]
             except HTTPException as e:
                 return ["http", e.status_code]
+            except asyncio.CancelledError:     # the harness server gave up waiting: that must end the call, not become an "outcome"
+                raise
             except BaseException as e:  # noqa
                 return ["exc", type(e).__name__]
 
